@@ -189,6 +189,21 @@ func ruleHeaderRefusals(c *core.Ctx) {
 	for _, r := range core.Returns(hr) {
 		if successReturn(r) {
 			succ = append(succ, r)
+			continue
+		}
+		// `return h.readDestination(r)`: the outcome of the last step of a Read split into
+		// private steps is handed on — it may be nil
+		if len(r.Results) == 1 {
+			if cr, _ := core.CallResult(core.RetVal(r, 0)); cr != nil {
+				if g := cr.Call.StaticCallee(); g != nil && inRepo(g) && isPrivateHelper(c, g) {
+					// … unless this is the branch where that outcome was found to be an error
+					the := ssa.Value(cr)
+					isIt := func(v ssa.Value) bool { return core.Canon(v) == the }
+					if !core.Guarded(hr, r, core.Ne(isIt, core.IsNilConst)) {
+						succ = append(succ, r)
+					}
+				}
+			}
 		}
 	}
 	guardedAll := func(m core.EdgeMatcher) bool {
